@@ -1204,5 +1204,7 @@ func runC10(c *Ctx) error {
 	x.apkFamily()
 	_ = os.Unsetenv("SOURCE_DATE_EPOCH")
 	x.sde = ""
+	c10KeyIDThroughConfiguration(c)
+	c10SigningThroughEnvMapping(c)
 	return nil
 }
